@@ -1,3 +1,5 @@
 import Proofs.SpiceProofs
 import Proofs.Conservation
 import Proofs.WalkerProofs
+import Proofs.LoadDag
+import Proofs.LedgerDag
